@@ -399,7 +399,7 @@ class Engine:
                 pending[idx] = pending.get(idx, 0.0) + v
         uniform = all(v == vols[0] for v in vols)
         v_arg = vols[0] if uniform and rng.random() < 0.5 else list(vols)
-        op = {"op": kind, "lw": name, "wells": [w for w, _ in ws], "pos": enc((rng.randint(1, 67), rng.randint(1, 128))),
+        op = {"op": kind, "lw": name, "wells": [w for w, _ in ws], "pos": enc(tuple(d["grid_site"]) if d.get("grid_site") else (rng.randint(1, 67), rng.randint(1, 128))),
               "tips": tips, "vol": enc(v_arg), "lc": rng.choice(["Water", "", "DMSO"]), "arm": rng.choice([0, 0, 1]),
               "label": rng.choice(SAFE_LABELS), "_fault": fault, "_shapes": ["list", "scalar" if not isinstance(v_arg, list) else "list"]}
         if adding:
